@@ -218,11 +218,26 @@ def grad_case(rng, pipeline_name, n_steps, singular, opts=None, active_limits=Fa
     return None       # finiteness only at the singular inputs
   # central differences in float64 (free-root quaternion coordinates are perturbed off the unit sphere, as jax.grad sees them)
   jl = jax.jit(loss)
-  h = 1e-6
-  fd = np.zeros_like(g)
-  for i in range(z0.size):
-    e = np.zeros(z0.size); e[i] = h
-    fd[i] = (float(jl(z0 + e)) - float(jl(z0 - e))) / (2 * h)
+  def fd_at(h, idx):
+    out = np.zeros(len(idx))
+    for k, i in enumerate(idx):
+      e = np.zeros(z0.size); e[i] = h
+      out[k] = (float(jl(z0 + e)) - float(jl(z0 - e))) / (2 * h)
+    return out
+  tol = lambda a, b: np.abs(a - b) <= 2e-4 * np.abs(b) + 2e-5 * (1 + np.abs(g).max())
+  fd = fd_at(1e-6, range(z0.size))
+  # the generalized constraint solver stops on a tolerance, so the loss has tiny jump discontinuities (a change of the
+  # iteration count): a central difference that straddles one is meaningless.  A component that disagrees at h = 1e-6 is
+  # re-measured at h = 1e-7 and 1e-5; the gradient is wrong only if it disagrees at every scale.
+  bad = [i for i in range(z0.size) if not tol(g[i], fd[i])]
+  for h2 in (1e-7, 1e-5):
+    if not bad:
+      break
+    fd2 = fd_at(h2, bad)
+    for k, i in enumerate(list(bad)):
+      if tol(g[i], fd2[k]):
+        fd[i] = fd2[k]
+        bad.remove(i)
   if not np.allclose(g, fd, rtol=2e-4, atol=2e-5 * (1 + np.abs(g).max())):
     return dict(key=f'grad-vs-fd:{pipeline_name}', what=f'jax.grad through {n_steps} {pipeline_name} steps differs from central differences',
                 grad=g.tolist(), fd=fd.tolist(), **base)
